@@ -6,7 +6,7 @@ from .. import dagsweep as D
 from .. import sweepprops as S
 
 LEVEL = 'proof'
-NEEDS = ['CorrTopoSort', 'TopoSort', 'TopoSortProofs', 'SFTopo', 'SubGraph', 'SubGraphProofs', 'Extracted', 'SourceFacts', 'Bridge', 'BridgeProofs', 'Base', 'Digraph', 'DigraphProofs', 'Queries', 'QueriesProofs', 'CorrDag']
+NEEDS = ['PyRt', 'PyRtLoop', 'TraversalGenLemmas', 'TraversalGenQ', 'TraversalGenQProofs', 'CorrTraversalBase', 'CorrTraversalGenQ', 'CorrTopoSort', 'TopoSort', 'TopoSortProofs', 'SFTopo', 'SubGraph', 'SubGraphProofs', 'Extracted', 'SourceFacts', 'Bridge', 'BridgeProofs', 'Base', 'Digraph', 'DigraphProofs', 'Queries', 'QueriesProofs', 'CorrDag']
 
 
 def dpe_tokens(g, n):
@@ -21,6 +21,8 @@ def dpe_tokens(g, n):
 def check(run, tier, seed):
     from .. import topocorr
     topocorr.exact_default_order(run, 'C10', tier, seed)
+    from .. import travcorr
+    travcorr.traversal_correspondence(run, 'C10', tier, seed)
     S.sweep_property(run, tier, seed, 'C10',
                      describe='ancestors / descendants / is_ancestor / is_descendant (single, list, set, empty forms) / common ancestors and '
                               'descendants / all causal paths / nodes between / directed_path_exists / all topological orders / the four '
@@ -55,6 +57,11 @@ def check(run, tier, seed):
 
 
 def replay(run, path):
+    import json
+    case = json.loads(open(path).read())
+    if case.get('kind') == 'traversal':
+        from .. import travcorr
+        return travcorr.replay(run, 'C10', case)
     S.replay_dag(run, path, 'C10')
     return 1 if run.violations else 0
 
